@@ -19,6 +19,7 @@ type SolverStats struct {
 	Sat, Unsat, Unknown int
 	Queries             int
 	Time                time.Duration
+	Wait                time.Duration
 	Errors              []string
 }
 
@@ -41,7 +42,7 @@ type Solver struct {
 }
 
 func NewSolver(tt *TermTable, timeoutMs int) *Solver {
-	s := &Solver{tt: tt, timeout: timeoutMs, bin: "z3", args: []string{"-in"}}
+	s := &Solver{tt: tt, timeout: timeoutMs, bin: envOr("GOSYM_SOLVER", "z3-new"), args: []string{"-in"}}
 	if p := os.Getenv("GOSYM_SMTLOG"); p != "" {
 		f, err := os.Create(fmt.Sprintf("%s.%d", p, time.Now().UnixNano()))
 		if err == nil {
@@ -225,7 +226,9 @@ const (
 func (r Result) String() string { return [...]string{"unsat", "sat", "unknown"}[r] }
 
 func (s *Solver) readLine() string {
+	t0 := time.Now()
 	line, err := s.out.ReadString('\n')
+	s.stats.Wait += time.Since(t0)
 	if err != nil {
 		s.dead = true
 		return "(error \"solver died: " + err.Error() + "\")"
